@@ -281,7 +281,7 @@ func newGen() *gen {
 	}
 
 	add("schema", []string{`{}`}, fixed(cat([]member{
-		{"$ref", constAlts("#/definitions/a", "other.json#/definitions/a~1b", "http://h/x/y.json", "#/definitions/a%20b", "#", `urn:x:a\b"c`, "other.json?q=a\"b#/x")},
+		{"$ref", constAlts("#/definitions/a", "other.json#/definitions/a~1b", "http://h/x/y.json", "#/definitions/a%20b", "#", `urn:x:a\b"c`, `urn:x:a\b`, "other.json?q=a\"b#/x")},
 		{"id", constAlts("http://h/x/y.json")},
 		{"$schema", constAlts("http://json-schema.org/draft-04/schema", "http://json-schema.org/draft-04/schema#")},
 		{"title", strAlts()}, {"description", strAlts()}, {"type", constAlts("object", "string", "file")}, {"format", str1()},
